@@ -5,6 +5,6 @@ CONSTANTS
   MaxDefs = 5
   MaxFiles = 2
   PoolSel = {1,2,23,24,25,26,27}
-INVARIANTS TypeOK MeasureNat TempIsStack EmittedOnce TemporariesEmpty TopoOrder CycleReported OrderIndependent FixedPointScoped EmitCase EmitDb CountAmbiguous
+INVARIANTS TypeOK MeasureNat TempIsStack EmittedOnce TemporariesEmpty TopoOrder TopoOrderStrict CycleReported OrderIndependent ForwardRefsScoped FixedPointScoped EmitCase EmitDb CountAmbiguous CountAmbiguousFwd
 PROPERTIES Progress
 CHECK_DEADLOCK FALSE
